@@ -15,12 +15,13 @@ class EventPlayer(FlatConfigPlayer):
     config_file_section = 'event_player'
     show_section = 'events'
 
-    __slots__ = ["delay"]
+    __slots__ = ["delay", "_pending_delays"]
 
     def __init__(self, machine):
         """Initialize EventPlayer."""
         super().__init__(machine)
         self.delay = DelayManager(self.machine)
+        self._pending_delays = {}   # context -> names of the delayed events which have not been posted yet
 
     def play(self, settings, context, calling_context, priority=0, **kwargs):
         """Post (delayed) events."""
@@ -30,8 +31,8 @@ class EventPlayer(FlatConfigPlayer):
                     continue
 
                 if s["number"] is not None:
-                    self.delay.add(callback=self._post_event, ms=s["number"],
-                                   event=event, priority=s["priority"], params=s["params"], **kwargs)
+                    self._post_event_delayed(context, ms=s["number"],
+                                             event=event, priority=s["priority"], params=s["params"], **kwargs)
                 else:
                     self._post_event(event, s["priority"], s["params"], **kwargs)
 
@@ -53,10 +54,22 @@ class EventPlayer(FlatConfigPlayer):
                     continue
 
                 if s["number"] is not None:
-                    self.delay.add(callback=self._post_event, ms=s["number"],
-                                   event=event, priority=s["priority"], params=s["params"])
+                    self._post_event_delayed(context, ms=s["number"],
+                                             event=event, priority=s["priority"], params=s["params"])
                 else:
                     self._post_event(event, s["priority"], s["params"])
+
+    def _post_event_delayed(self, context, **kwargs):
+        """Post an event later unless its context is cleared before."""
+        pending = self._pending_delays.setdefault(context, set())
+        # forget the delays which ran in the meantime
+        pending.intersection_update(self.delay.delays)
+        pending.add(self.delay.add(callback=self._post_event, **kwargs))
+
+    def clear_context(self, context):
+        """Remove the delayed events of a context which are still pending (e.g. of a mode which stopped)."""
+        for name in self._pending_delays.pop(context, ()):
+            self.delay.remove(name)
 
     def _post_event(self, event, priority, params, **kwargs):
         if "(" in event:
